@@ -104,8 +104,21 @@ def run(ctx, broken):
                                  "peak_bound": None})
     r.run(cs)
     r.run(accepted_use[: (40 if ctx.tier == "quick" else 400)])
+    # compressed circuits: the MessagePack payload decoder vs the Lean model's from_bytes on structure-aware variants
+    from props import packed
+    cprogs = ["pub 5;w 7;gadd 0 1 1 0 3 - $0 $1 #0;pub 9;bool #1", "w 2d;rangebits 7 $0;w 33;pub 0",
+              "w 1;w 2;gate 1 2 3 4 5 6 - $0 $1 $0 $1;gate 0 9 0 0 0 0 7 $1 #0 #0 #0"]
+    if ctx.tier != "quick":
+        cprogs += ["w 2d;w 33;xor 2 $0 $1;pub 0", "pub 0;pub 1;pub 2;w 5;bool #1"]
+    npk, dpk = packed.run_packed(ctx, "C17", cprogs, rng, "checked", ctx.tier != "quick")
     st = r.report()
-    st["rule"] = ("structure-aware mutants of valid encodings of a prover (6 header fields, inner key header, raw commit-key points: "
+    st["evaluations"] += npk
+    st["packed_payload_cases"] = npk
+    st["packed_payload_distribution"] = dpk
+    st["rule"] = ("compressed circuits: structure-aware variants of the MessagePack payload (index boundaries, capacities, declared "
+                  "lengths, non-minimal encodings, trailing / truncated data, non-canonical scalars) decoded by the real from_bytes and "
+                  "by the Lean model's from_bytes (same outcome, same reconstructed composer), never a panic, bounded peak allocation; "
+                  "structure-aware mutants of valid encodings of a prover (6 header fields, inner key header, raw commit-key points: "
                   "flag bytes 1/2/3/255, limbs 0xff.., limbs = p, garbage identity, empty key), a verifier, a proof, public "
                   "parameters (identity opening-key points) and a raw commit key: bit flips, length fields set to 0/1/2/2^32/2^63/"
                   "u64::MAX/len+-1, truncation, extension, splices, 0xff / zero windows; debug-assertions + overflow-checks build. "
